@@ -115,6 +115,10 @@ def jac(F, P, mode, rnd, special=0):
         lam = F.neg(F.one)
     elif special == 2:
         lam = F.add(F.one, F.one)
+    elif special == 3 and F.n == 2:
+        lam = (1, lam[1])      # real part exactly one, imaginary part arbitrary
+    elif special == 3:
+        lam = F.inv(F.add(F.one, F.one))
     l2 = F.mul(lam, lam)
     return (F.mul(P[0], l2), F.mul(P[1], F.mul(l2, lam)), lam)
 
@@ -177,7 +181,7 @@ def replay_group(op, modes, case, seed=0):
     affine reference. returns (reproduced?, witness dict)"""
     rnd = random.Random(1234 + seed)
     for F, pfx in ((F1, 'g1'), (F2, 'g2')):
-        for s in range(3):
+        for s in range(4):
             P, Qp = case_points(F, case, s + seed)
             if op == 'sub':
                 Qp = aff_neg(F, Qp)   # the relation is between P and -Q
@@ -186,7 +190,7 @@ def replay_group(op, modes, case, seed=0):
             A1 = None if modes[0] == 'o' else P
             A2 = None
             if len(modes) > 1:
-                J2 = jac(F, Qp, modes[1], rnd, (s + 1) % 3)
+                J2 = jac(F, Qp, modes[1], rnd, (s + 1) % 4)
                 env.update(point_env(F, '2', J2))
                 A2 = None if modes[1] == 'o' else Qp
             task = '%s_%s_%s' % (pfx, op, modes)
@@ -311,4 +315,26 @@ def replay_smul(scalars):
                         got = ((int.from_bytes(b[32:64], 'big'), int.from_bytes(b[0:32], 'big')), (int.from_bytes(b[96:128], 'big'), int.from_bytes(b[64:96], 'big')))
                 if got != want:
                     return True, {'group': g, 'representation': mode, 'scalar': '%064x' % k, 'mismatch': 'P*k differs from the k-fold sum of P (affine double-and-add reference)'}
+    return False, {}
+
+
+def replay_pow(scalars=()):
+    """native a^k for Fr / Fq (public pow) and Gt::pow against Python pow / repeated squaring, structured exponents"""
+    exe = kani.build_replay('release')
+    if not exe:
+        return False, {'error': 'replay build failed'}
+    cat = [0, 1, 2, 3, 1 << 64, (1 << 64) - 1, (1 << 128) + 5, (1 << 192) + (1 << 64) - 1, RORD - 1, 0x8000000000000000, 0xFFFFFFFFFFFFFFFF0000000000000000FFFFFFFFFFFFFFFF]
+    for k in list(scalars) + cat:
+        for fld, p in (('fr', RORD), ('fq', Q)):
+            kk = k % p
+            a = 0x1234567890ABCDEF1234567890ABCDEF % p
+            r = subprocess.run([exe, '--pow', fld, '%064x' % a, '%064x' % kk], capture_output=True, text=True, timeout=120).stdout.strip()
+            if not r:
+                return False, {'error': 'no output'}
+            if int(r, 16) != pow(a, kk, p):
+                return True, {'field': fld, 'base': '%064x' % a, 'exponent': '%064x' % kk, 'mismatch': '%s::pow differs from integer exponentiation mod p' % fld.capitalize()}
+        kk = k % RORD
+        r = subprocess.run([exe, '--pow', 'gt', '', '%064x' % kk], capture_output=True, text=True, timeout=300).stdout.strip()
+        if 'MISMATCH' in r:
+            return True, {'field': 'gt', 'exponent': '%064x' % kk, 'mismatch': r[:200]}
     return False, {}
